@@ -423,7 +423,8 @@ func scenarios(c *props.Ctx) []*wscen {
 	var out []*wscen
 	for _, g := range geoms {
 		I := g.N * g.BL
-		for _, t0 := range []int64{1, g.BL, 7 * I * 1000, 7*I*1000 + g.BL + g.BL/2 + 1} {
+		// the last start lies half a bucket before bucket number 2^32: the histories cross it
+		for _, t0 := range []int64{1, g.BL, 7 * I * 1000, 7*I*1000 + g.BL + g.BL/2 + 1, (int64(1)<<32)*g.BL - g.BL/2 - 1} {
 			out = append(out, &wscen{N: g.N, BL: g.BL, T0: t0, ops: mkOps(g.N, g.BL, c.Quick())})
 		}
 	}
